@@ -7,6 +7,7 @@ FIX_COMMITS = [
     "3ca9c68c NeoHooke.gradient stale out buffer when mu is None",
     "56fde0e6 Form API sym=True on off-diagonal blocks of mixed fields",
     "4835bdf0 blatz_ko missing factor 1/2",
+    "48c1eb33 tetra volume mid-points",
     "abb0b49f tools.moment on 2-D fields",
     "35edf887 van_der_waals non-isochoric I2",
 ]
@@ -153,6 +154,14 @@ CHECKS = {
                 "a settled state has the same u-force vector as the explicit (u,p,J) NearlyIncompressible formulation at p* = bulk (J*-1), J* = v/V, where the explicit p- and J-equations vanish, and its stored "
                 "p, J are these values; a uniform-grid region gives the same h, dhdX, dV and the same assembled vector / matrix as the general region on a grid with symbolic spacing.",
         "note": "convergence to the revolved 3-D model is a limit statement (outside); the slab comparison identifies deformation gradients that agree to 2^-40 (continuous material assumed).",
+    },
+    "C16": {
+        "text": "Generators Line / Rectangle / Cube (symbolic corner a and side lengths L) and Grid (symbolic box, concrete non-uniform axes): cells tile the box (sum dV = prod L), every dV > 0 with the library's own "
+                "negative-volume branch explored and shown infeasible, no unused / duplicate points, all points inside the box. On symbolically affine images (det A > 0.3) of a 2-cell quad mesh and a 1-cell hexahedron: "
+                "rotate (symbolic angle, centre), translate, mirror (axis / general normal), flip o flip, triangulate (quad; hexahedron modes 0 and 3), expand (symbolic thickness), revolve (orientation), "
+                "add_midpoints_edges / faces / volumes, convert(order=2), concatenate, stack, disconnect: total measure preserved (1e-9 where trigonometric / root atoms occur, else exact) and all new cells positively "
+                "oriented; inserted mid-points are the centroids of the corner points of their edge / face / cell (also for one tetrahedron with 12 symbolic coordinates). merge_duplicate_points on concrete data.",
+        "note": "Circle, Triangle, fill_between, runouts, arbitrary-order Lagrange meshes and unbounded transformation programs are outside; merge_duplicate_points is run concretely (np.unique(axis=0) cannot take symbolic rows).",
     },
 }
 NOT_APPLICABLE = {}
